@@ -23,10 +23,17 @@ OPS = [
     {"op": "incr", "k": "a", "d": 1, "nr": False}, {"op": "incr", "k": "a", "d": 1, "nr": True}, {"op": "decr", "k": "a", "d": 1, "nr": False},
     {"op": "touch", "k": "a", "e": 5, "nr": False}, {"op": "touch", "k": "a", "e": 5, "nr": True},
     {"op": "flush_all", "d": 0, "nr": False}, {"op": "version"},
+    # noreply=None: the client's default_noreply decides (incr/decr: None means "wait for the reply")
+    {"op": "incr", "k": "a", "d": 1, "nr": None}, {"op": "decr", "k": "a", "d": 1, "nr": None}, {"op": "set", "k": "a", "v": b"9", "nr": None},
+    {"op": "delete", "k": "a", "nr": None}, {"op": "touch", "k": "a", "e": 5, "nr": None}, {"op": "cas", "k": "a", "v": b"6", "cas": b"1", "nr": None},
+    {"op": "delete_many", "ks": ["a", "b"], "nr": None}, {"op": "set_many", "items": [("a", b"1"), ("b", b"2")], "nr": None}, {"op": "flush_all", "d": 0, "nr": None},
 ]
 READ_OPS = [c for c in OPS if c["op"] in ("get", "gets", "gat", "gats", "get_many", "gets_many")]
 
-MUTATIONS = ["valid", "error-line", "server-error", "garbage-line", "wrong-key", "non-numeric-size", "truncate-eof", "truncate-timeout", "extra-crlf-garbage"]
+MUTATIONS = ["valid", "error-line", "server-error", "garbage-line", "wrong-key", "non-numeric-size", "truncate-eof", "truncate-timeout", "extra-crlf-garbage",
+             "client-error-format", "client-error-exptime", "client-error-chunk", "server-error-large"]
+ERROR_LINES = {"client-error-format": b"CLIENT_ERROR bad command line format", "client-error-exptime": b"CLIENT_ERROR invalid exptime argument",
+               "client-error-chunk": b"CLIENT_ERROR bad data chunk", "server-error-large": b"SERVER_ERROR object too large for cache"}
 FAULT_KINDS = ["timeout", "reset", "oserror", "eof"]
 BASE_KINDS = ["kbd", "sysexit", "interrupt"]
 
@@ -40,6 +47,8 @@ def mutate(reply, how, rng):
         return b"ERROR\r\n" + reply.split(b"\r\n", 1)[1] if b"\r\n" in reply else reply, None
     if how == "server-error":
         return b"SERVER_ERROR out of memory\r\n" + reply.split(b"\r\n", 1)[1], None
+    if how in ERROR_LINES:
+        return ERROR_LINES[how] + b"\r\n" + reply.split(b"\r\n", 1)[1], None
     if how == "garbage-line":
         return b"\rWHAT EVER\r\r\n" + reply.split(b"\r\n", 1)[1], None
     if how == "wrong-key" and reply.startswith(b"VALUE "):
